@@ -395,9 +395,14 @@ def run(prog, rep):
         fresh = []       # containers created for a class that has none yet: setdefault(k, D) / reg[k] = D
         for h3 in private_closure(m3):
             for c in calls_in(h3.node):
+                recv3 = c.func.value if isinstance(c.func, ast.Attribute) else None
+                if isinstance(recv3, ast.Name):
+                    # `bucket = registry.setdefault(klass, set()); bucket.add(handler)`
+                    bound3 = [st.value for st in walk_no_nested(h3.node) if isinstance(st, ast.Assign) and any(isinstance(t, ast.Name) and t.id == recv3.id for t in st.targets)]
+                    recv3 = bound3[0] if len(bound3) == 1 else recv3
                 if isinstance(c.func, ast.Attribute) and c.func.attr in ("add", "append", "extend", "insert") and \
-                        (isinstance(c.func.value, ast.Subscript) or (isinstance(c.func.value, ast.Call) and isinstance(c.func.value.func, ast.Attribute)
-                                                                      and c.func.value.func.attr in ("setdefault", "get"))):
+                        (isinstance(recv3, ast.Subscript) or (isinstance(recv3, ast.Call) and isinstance(recv3.func, ast.Attribute)
+                                                              and recv3.func.attr in ("setdefault", "get"))):
                     adds.append((h3, c))
                 if isinstance(c.func, ast.Attribute) and c.func.attr == "setdefault" and len(c.args) == 2:
                     fresh.append(c.args[1])
